@@ -12,16 +12,25 @@ Shard kinds (key 'check' of the shard; '--only' selects them):
   literal   string literals written by the harness (refmodels/mofescape.py), in five escaping
             styles, as one part and split into parts at every unit boundary
 
-Signature field 'check': 'roundtrip' for everything that goes through tomof(), 'literal' for the
-harness-written literals.
+Signature fields:
+  check   'roundtrip' for everything that goes through tomof(), 'literal' for harness-written text
+  what    tomof-raised:<exc> / prelude-rejected:<..> / compile-failed:<MOFCompileError class> /
+          compile-raised:<other exception> / differs:<transformation class> / instance-count
+  kind    qdecl / class / inst              where   attribute-path kind of the first difference
+  cause   split-inside-escape:hex/simple (a part boundary of the printed MOF lies inside an escape
+          unit, found with the reference escaping model), else for failures that are not
+          self-explaining string transformations 'leaf:<what is left in the minimised witness>'
+  witness_shape   the minimised witness with leaf values replaced by their kinds
+  witness (literal only) the minimised literal text
+String transformation classes: apostrophe-dropped, char16-literal-keeps-quotes,
+other:<classes of the differing characters>.
 """
 import itertools
 import json
 import re
 import warnings
 
-from pywbem import (CIMInstanceName, CIMInstance, CIMClass, CIMProperty, CIMMethod,
-                    CIMParameter, CIMQualifier, CIMQualifierDeclaration, CIMDateTime)
+from pywbem import CIMInstanceName, CIMInstance, CIMClass, CIMQualifierDeclaration
 from pywbem._cim_types import CIMInt, CIMFloat
 from pywbem._mof_compiler import MOFCompiler, MOFWBEMConnection, MOFCompileError
 from pywbem._nocasedict import NocaseDict
@@ -48,9 +57,10 @@ ASSUMPTIONS = [
     'NOT compared: class_origin, propagated, embedded_object, paths, child order, qualifiers of '
     'instances',
     'typed numeric keys of reference values are compared by numeric value (WBEM URIs are untyped)',
-    'not expressible in MOF and therefore excluded: ToInstance flavor, empty scope list, INF/NaN '
-    'reals, qualifiers used with two different declarations, references without a class, '
-    'embedded classes as property values',
+    'not expressible in MOF and therefore excluded (counted as trivial): ToInstance flavor, empty '
+    'scope list, INF/NaN reals, instances without properties, array_size on a scalar, one '
+    'qualifier name used with two different declarations, references without a class, embedded '
+    'classes as property values, embedded objects as class-level default values',
     'MOF keywords are not used as element names (DSP0004 reserves them)',
     'flavors of qualifier values come from the (harness-written) qualifier declaration; '
     'tomof() does not print them',
@@ -59,9 +69,13 @@ ASSUMPTIONS = [
 BOUNDS = {
     'quick': {'string_len': 3, 'literal_len': 3, 'embedded_string_len': 2,
               'fold_maxlines': [40, 41, 79, 80, 200], 'fold_i_max': '3*maxline',
+              'fold_contexts': ['qdecl', 'cprop', 'cqual', 'iarr'], 'fold_tail': [0, 1, 7],
+              'literal_styles': 5, 'literal_cuts': 'none, every single boundary, all boundaries',
               'object_maxlines': [80, 40], 'qualifier_list_len': 3},
     'thorough': {'string_len': 4, 'literal_len': 4, 'embedded_string_len': 2,
                  'fold_maxlines': 'every maxline 40..120', 'fold_i_max': '3*maxline',
+                 'fold_contexts': ['qdecl', 'cprop', 'cqual', 'iarr'], 'fold_tail': [0, 1, 7],
+                 'literal_styles': 5, 'literal_cuts': 'none, every single boundary, all boundaries',
                  'object_maxlines': [80, 40], 'qualifier_list_len': 3},
 }
 NS = 'root/cimv2'
@@ -230,12 +244,6 @@ class Needs:
             name, props = self.classes[k]
             out.append('class %s {\n%s};\n' % (name, ''.join('   %s;\n' % d for d in props.values())))
         return ''.join(out)
-
-
-def _need_value_classes(v, needs):
-    if isinstance(v, list):
-        for x in v:
-            _need_value_classes(x, needs)
 
 
 def _need_elem(e, needs):
@@ -853,7 +861,8 @@ def _needs_shape(v):
     return True
 
 
-def check_case(acc, spec, maxline, shard_check, minimize=True, max_tests=600, shrink=None):
+def check_case(acc, spec, maxline, shard_check, minimize=True, max_tests=600, shrink=None,
+               sample=False):
     v = verdict(spec, maxline)
     kind = spec[0]
     trivial = v.what is None and v.outcome != 'ok'
@@ -865,7 +874,7 @@ def check_case(acc, spec, maxline, shard_check, minimize=True, max_tests=600, sh
             acc.count('fold_cases_with_a_line_longer_than_maxline')
     acc.case((D.key(spec), maxline), nontrivial=not trivial, calls=v.calls, outcome=out,
              sample=dict(spec=spec, maxline=maxline, mof=v.text[:400])
-             if v.outcome == 'ok' and kind == 'inst' and shard_check == 'objects' else None)
+             if sample and v.outcome == 'ok' and kind == 'inst' and maxline == 40 else None)
     if v.what is None:
         return v
     if not hasattr(acc, '_seen'):
@@ -1469,7 +1478,8 @@ def run_shard(shard, tier):
     gen = object_cases(tier) if name == 'objects' else string_cases(tier)
     for i, (spec, m) in enumerate(gen):
         if i % shard['of'] == shard['part']:
-            check_case(acc, spec, m, name, max_tests=1500 if name == 'objects' else 300)
+            check_case(acc, spec, m, name, max_tests=1500 if name == 'objects' else 300,
+                       sample=(name == 'objects' and shard['part'] == 0))
     return acc
 
 
